@@ -134,6 +134,11 @@ def gen_case(st, tier):
             else:
                 d["sched"]["horizon"] *= 6
     case["driver"] = d
+    if ev == "insights" and rk.random() < 0.5:
+        # the system facts InsightsEvaluator picks up from the broker on the way (machine id, release): present and
+        # readable, empty, unreadable (the lazy read raises), or not text -- none of which is any rule's business
+        case["sysfacts"] = {"machine_id": rk.choice(["ok", "empty", "raises", "nonstr", None]),
+                            "release": rk.choice(["ok", "raises", None, None])}
     if rk.random() < 0.2:
         # a long-lived process: the rules were evaluated (and reported) once already, then configuration gave some of
         # them other tags (insights.apply_configs, which runs before every insights.run / collect / shell evaluation)
@@ -145,6 +150,25 @@ def gen_case(st, tier):
 
 class Result(object):
     pass
+
+
+class FactProvider(object):
+    """Stand-in for the content provider of a system-fact spec (Specs.machine_id, Specs.redhat_release)."""
+
+    def __init__(self, kind, text):
+        self.kind = kind
+        self.text = text
+
+    @property
+    def content(self):
+        if self.kind == "raises":
+            from insights.core.exceptions import ContentException
+            raise ContentException("cannot read %s" % self.text)
+        if self.kind == "empty":
+            return []
+        if self.kind == "nonstr":
+            return [5]
+        return [self.text + "\n"]
 
 
 class SeededObserver(object):
@@ -232,6 +256,14 @@ def run_eval(case):
                 broker = world.new_broker()
                 if case.get("ctx_in_broker"):
                     broker[ExecutionContext] = ExecutionContext()
+                sf_ = case.get("sysfacts") or {}
+                if sf_.get("machine_id"):
+                    from insights.specs import Specs
+                    broker[Specs.machine_id] = FactProvider(sf_["machine_id"], "7f1c2e0a-machine")
+                    world.fired("system_fact_" + sf_["machine_id"])
+                if sf_.get("release"):
+                    from insights.specs import Specs
+                    broker[Specs.redhat_release] = FactProvider(sf_["release"], "Red Hat Enterprise Linux release 9.4 (Plow)")
                 stream = io.StringIO()
                 res.escaped = None
                 res.response = None
